@@ -11,7 +11,9 @@ RULE = (
     "location; flags enumerated completely over fixed size templates, sizes/coordinates/flags also drawn by "
     "Hypothesis); non-trivial = at least 2 non-degenerate axes and at least one non-default layout flag. "
     "history: sequences of property reads, copies and data_location assignments; non-trivial = a shape/size/"
-    "points read happens before a later effective location change. distinct = distinct canonical JSON."
+    "points read happens before a later effective location change. large_enum: uniform/rectilinear/ESRI grids "
+    "and mixed tri/quad unstructured grids with 2^15..2^17+ cells (sizes on both sides of 2^16 and 2^17), judged "
+    "vectorised against the same reference. distinct = distinct canonical JSON."
 )
 ASSUMPTIONS = [
     "reference LOC array computed from constructor arguments only (vf/h_grid.py), numpy trusted",
@@ -219,9 +221,98 @@ history_st = st.fixed_dictionaries(
 )
 
 
+# ------------------------------------------------------------------ large grids (block / chunk boundaries)
+def check_large(cfg, ctx):
+    """the same questions as check_layout, vectorised, for grids with 2^15 .. 2^17+ cells (sizes straddling the
+    powers of two at which block-wise implementations switch paths), plus a large mixed unstructured grid"""
+    import finam as fm
+    from finam.data.grid_tools import NODE_COUNT
+
+    ctx.nontrivial(True)
+    if cfg["cls"] == "mixed":
+        n, m = cfg["quads"], cfg["tris"]
+        k = np.arange(n + m, dtype=float)
+        # cell k owns its own nodes: a unit square (or its lower triangle) at x-offset 2k; shuffled deterministically
+        pts = np.empty((4 * (n + m), 2))
+        pts[0::4] = np.stack([2 * k, 0 * k], 1)
+        pts[1::4] = np.stack([2 * k + 1, 0 * k], 1)
+        pts[2::4] = np.stack([2 * k + 1, 0 * k + 1], 1)
+        pts[3::4] = np.stack([2 * k, 0 * k + 1], 1)
+        cells = np.arange(4 * (n + m)).reshape(-1, 4)
+        is_tri = (np.arange(n + m) * 7919 % (n + m)) < m
+        cells[is_tri, 3] = -1
+        types = np.where(is_tri, fm.CellType.TRI.value, fm.CellType.QUAD.value)
+        g = fm.UnstructuredGrid(points=pts, cells=cells, cell_types=types, data_location=cfg["loc"])
+        want = np.where(is_tri[:, None], (pts[0::4] + pts[1::4] + pts[2::4]) / 3.0, (pts[0::4] + pts[1::4] + pts[2::4] + pts[3::4]) / 4.0)
+        ctx.event("mixed-unstructured")
+        if not _close(g.cell_centers, want):
+            bad = int(np.sum(~np.isclose(np.asarray(g.cell_centers), want).all(axis=1)))
+            ctx.violation("large-cell_centers", f"unstructured grid with {n} quads + {m} triangles: {bad} cell centres differ from the node means")
+        if cfg["loc"] == "CELLS" and not _close(g.data_points, want):
+            ctx.violation("large-data_points", "data_points of a cell-located unstructured grid are not its node means")
+        return
+    if cfg["cls"] == "rect_arange":  # compact case description of a long rectilinear axis with uneven gaps
+        k = np.arange(cfg["n"], dtype=float)
+        cfg = {"cls": "rect", "axes": [(k * 0.5 + (k % 3) * 0.125).tolist()], "order": cfg["order"], "rev": False, "loc": cfg["loc"]}
+    g = hg.build(cfg)
+    _LOC, shape, _order = hg.ref(cfg)
+    flat = hg.flat_locs(cfg)
+    ctx.event(f"cells~2^{int(np.log2(max(1, g.cell_count)))}")
+    if tuple(g.data_shape) != tuple(shape) or int(g.data_size) != len(flat):
+        ctx.violation("large-data_shape", f"data_shape {g.data_shape} size {g.data_size} vs reference {shape}")
+        return
+    if not _close(g.data_points, flat):
+        ctx.violation("large-data_points", f"data_points differ from reference for {_short(cfg)}")
+    pts, cells, ctypes = np.asarray(g.points), np.asarray(g.cells), np.asarray(g.cell_types)
+    nn = NODE_COUNT[int(ctypes[0])]
+    if len(set(ctypes.tolist())) != 1 or cells.min() < 0 or cells.max() >= len(pts):
+        ctx.violation("large-cells", "cell types / node ids inconsistent")
+        return
+    mean = pts[cells[:, :nn]].mean(axis=1)
+    ccfg = dict(cfg)
+    if cfg["cls"] != "esri":
+        ccfg["loc"] = "CELLS"
+    cref = hg.flat_locs(ccfg)
+    u = g.to_unstructured()
+    for name, got in (("cell_centers", g.cell_centers), ("unstructured-centers", u.cell_centers)):
+        got = np.asarray(got)
+        if not _close(got, mean) or not _close(got, cref):
+            bad = int(np.sum(~np.isclose(got, cref).all(axis=1))) if got.shape == cref.shape else -1
+            ctx.violation(f"large-{name}", f"{bad} of {len(cref)} cell centres differ from node means / cell data locations for {_short(cfg)}")
+            break
+    if not _close(u.data_points, flat):
+        ctx.violation("large-unstructured-data_points", f"data points of the unstructured cast differ from reference for {_short(cfg)}")
+
+
+def _short(cfg):
+    return {k: (v if not isinstance(v, list) or len(v) < 8 else f"<{len(v)} values>") for k, v in cfg.items()}
+
+
+def enum_large(tier):
+    sizes1 = [32769, 65536, 65537, 65538, 70001, 131073, 140001]
+    for n in sizes1:
+        for inc in (True, False):
+            for loc in ("CELLS", "POINTS"):
+                yield {"cls": "uni", "dims": [n], "spacing": [0.5], "origin": [-3.0], "inc": [inc], "order": "F", "rev": False, "loc": loc}
+    for dims in ([257, 257], [258, 257], [300, 260], [3, 40001], [363, 363]):
+        for order, rev, inc in (("F", False, [True, True]), ("C", True, [True, False]), ("C", False, [False, True]), ("F", True, [False, False])):
+            for loc in ("CELLS", "POINTS"):
+                yield {"cls": "uni", "dims": dims, "spacing": [0.5, 2.0], "origin": [1.0, -8.0], "inc": inc, "order": order, "rev": rev, "loc": loc}
+    for dims in ([41, 41, 41], [42, 42, 41], [52, 52, 52]):
+        for order, rev, inc in (("F", False, [True, True, True]), ("C", True, [True, False, True])):
+            yield {"cls": "uni", "dims": dims, "spacing": [1.0, 0.5, 2.0], "origin": [0.0, 0.0, 4.0], "inc": inc, "order": order, "rev": rev, "loc": "CELLS"}
+    yield {"cls": "esri", "ncols": 300, "nrows": 260, "cellsize": 2.0, "xll": 10.0, "yll": -6.0, "order": "C"}
+    yield {"cls": "rect_arange", "n": 70002, "order": "C", "loc": "CELLS"}
+    yield {"cls": "rect_arange", "n": 65538, "order": "F", "loc": "POINTS"}
+    for q, t in ((70000, 0), (40000, 70000), (65537, 65537), (66000, 100)):
+        for loc in ("CELLS", "POINTS"):
+            yield {"cls": "mixed", "quads": q, "tris": t, "loc": loc}
+
+
 def parts():
     return [
         Part("layouts_enum", check_layout, enumerate=lambda tier: hg.enum_layouts(), exhaustive=True),
         Part("layouts_gen", check_layout, strategy=hg.grid_cfg(), strategy_thorough=hg.grid_cfg(max_len=6), budget={"quick": 3000, "thorough": 60000}),
+        Part("large_enum", check_large, enumerate=enum_large, exhaustive=True),
         Part("history", check_history, strategy=history_st, budget={"quick": 3000, "thorough": 60000}),
     ]
